@@ -431,6 +431,240 @@ func bigJob(run *hx.Run, root *hx.Rand, i int, p int, rn *sg.Runner) *sg.Result 
 	return res
 }
 
+// evalImports evaluates a pair of images with import files without and with the exclude-imports
+// option: `pair` + `pairx` correspondence lines; oracles: clean when mustBeClean (both modes), the
+// category order (both modes), exclude-imports only removes annotations, and with it no
+// annotation is located in an import file of the current image.
+func evalImports(run *hx.Run, job int, res *sg.Result, rn *sg.Runner, cur, prev *sg.Compiled, class, note string, mustBeClean bool, r *hx.Rand) {
+	in := input(cur, prev, note)
+	curImp, prevImp := cur.ImportFiles(), prev.ImportFiles()
+	in["current_imports"], in["previous_imports"] = keys(curImp), keys(prevImp)
+	pe := sg.EvalPair(rn, cur, prev, false)
+	if pe.Err != nil {
+		res.Fail(hx.OracleFailure{Class: sg.ErrClass("C04", pe.Err), What: pe.ErrAt + ": " + pe.Err.Error(), Input: in, Replay: replay(run, job)})
+		return
+	}
+	px := sg.EvalPairExcl(rn, cur, prev, pe.Idx)
+	if px.Err != nil {
+		res.Fail(hx.OracleFailure{Class: sg.ErrClass("C04", px.Err), What: px.ErrAt + ": " + px.Err.Error(), Input: in, Replay: replay(run, job)})
+		return
+	}
+	res.Cases = append(res.Cases, sg.Case{In: pe.In, Out: pe.Out, Nontrivial: true, Note: note, Cur: cur.Sources, Prev: prev.Sources})
+	if px.In != "" {
+		res.Cases = append(res.Cases, sg.Case{In: px.In, Out: px.Out, Nontrivial: true, Note: "exclude-imports " + note, Cur: cur.Sources, Prev: prev.Sources})
+		res.Count("lines:pairx")
+	}
+	res.Count("pairs:" + class)
+	res.Count(fmt.Sprintf("imports:cur=%s:prev=%s", sg.AnnBucket(len(curImp)), sg.AnnBucket(len(prevImp))))
+	if pe.Total == 0 {
+		res.Count("pairs:clean")
+	} else {
+		res.Count("pairs:non-clean")
+	}
+	if mustBeClean && pe.Total+px.Total > 0 {
+		var all []sg.Ann
+		for _, as := range pe.Sets {
+			all = append(all, as...)
+		}
+		for _, as := range px.Sets {
+			all = append(all, as...)
+		}
+		res.Fail(hx.OracleFailure{Class: class, What: fmt.Sprint(dedupe(sg.AnnStrings(all))), Input: in, Replay: replay(run, job)})
+	}
+	checkHierarchy(run, job, res, pe, cur, prev, note)
+	// the same order among the exclude-imports runs, when the two sides agree on which files are
+	// imports (what `--path` / a dependency module give).  With different flags on the two sides
+	// the order does not hold as coded: a package change in a file that is an import NOW only is
+	// dropped under FILE (FILE_SAME_PACKAGE sits in the current file) and kept under PACKAGE
+	// (PACKAGE_NO_DELETE has only an against location) - counted, not an oracle failure.
+	symmetric := true
+	for _, f := range cur.Image.Files() {
+		if pf := prev.Image.GetFile(f.Path()); pf != nil && pf.IsImport() != f.IsImport() {
+			symmetric = false
+		}
+	}
+	for _, v := range sg.Versions {
+		for ci := 1; ci < len(strictOrder); ci++ {
+			strict, cat := strictOrder[ci-1], strictOrder[ci]
+			as := px.Sets[v.Name+"/"+cat]
+			if len(px.Sets[v.Name+"/"+strict]) == 0 && len(as) > 0 {
+				if !symmetric {
+					res.Count("observe:exclude-imports-order-broken-with-asymmetric-import-flags:" + strict + "-" + cat)
+					continue
+				}
+				res.Fail(hx.OracleFailure{Class: "C04-hierarchy-exclude-imports-" + v.Name + "-" + strict + "-" + cat,
+					What:  fmt.Sprintf("with exclude-imports %s clean but %s reports %v", strict, cat, sg.AnnStrings(as)),
+					Input: in, Replay: replay(run, job)})
+			}
+		}
+	}
+	dropped := 0
+	for key, xs := range px.Sets {
+		have := map[string]bool{}
+		for _, a := range pe.Sets[key] {
+			have[a.Key()] = true
+		}
+		seen := map[string]bool{}
+		for _, a := range xs {
+			seen[a.Key()] = true
+			if !have[a.Key()] {
+				res.Fail(hx.OracleFailure{Class: "C04-exclude-imports-not-a-filter", What: key + ": only with exclude-imports: " + fmt.Sprint(sg.AnnStrings([]sg.Ann{a})), Input: in, Replay: replay(run, job)})
+			}
+			if a.File != "" && curImp[a.File] {
+				res.Fail(hx.OracleFailure{Class: "C04-exclude-imports-kept-import-file", What: key + ": annotation in an import file survives exclude-imports: " + fmt.Sprint(sg.AnnStrings([]sg.Ann{a})), Input: in, Replay: replay(run, job)})
+			}
+		}
+		for k := range have {
+			if !seen[k] {
+				dropped++
+			}
+		}
+	}
+	if dropped > 0 {
+		res.Count("imports:exclude-dropped-something")
+	}
+}
+
+func keys(m map[string]bool) []string {
+	out := make([]string, 0, len(m))
+	for k := range m {
+		out = append(out, k)
+	}
+	sort.Strings(out)
+	return out
+}
+
+// importJob (section E): a schema whose images contain IMPORT files: only some files are targets
+// (plus, mostly, an importer file that imports everything), built three ways (image filtered by
+// paths, module with target paths, targeted module + non-targeted dependency module), with the
+// same or different targets on the two sides.  Self pairs and additive chains must stay clean,
+// arbitrary breaking edits (preferably inside an import file) must respect the category order,
+// all of it without and with BreakingWithExcludeImports.
+func importJob(run *hx.Run, root *hx.Rand, i int, rn *sg.Runner) *sg.Result {
+	res := sg.NewResult()
+	r := root.Fork(uint64(i))
+	var s0 *sg.Schema
+	if r.Bool() {
+		s0 = sg.Generate(r)
+	} else {
+		s0 = sg.GenerateBig(r, 4+r.Intn(6))
+	}
+	k := sg.PlainKnobs
+	names := func(s *sg.Schema) (all, importers []string) {
+		imps := s.Imports()
+		for _, f := range s.Files {
+			all = append(all, f.Name)
+			if len(imps[f.Name]) > 0 {
+				importers = append(importers, f.Name)
+			}
+		}
+		return
+	}
+	compile := func(s *sg.Schema, spec sg.ImportSpec) *sg.Compiled {
+		c, err := sg.CompileTargeted(sg.Render(s, k), spec)
+		if err != nil {
+			res.Count("imports:compile-error")
+			res.Samples = append(res.Samples, map[string]any{"imports-compile-error": err.Error(), "spec": spec})
+			return nil
+		}
+		c.Encode()
+		return c
+	}
+	// additive chain s0 -> s1 -> s2
+	chain := []*sg.Schema{s0}
+	ops := []string{""}
+	for j := 0; j < 2; j++ {
+		if s, op, _, _, ok := sg.ApplyRandom(chain[len(chain)-1], sg.AdditiveOps, r); ok {
+			chain = append(chain, s)
+			ops = append(ops, op.Name)
+			res.Count("op:" + op.Name)
+		}
+	}
+	all0, imp0 := names(s0)
+	curSpec, prevSpec, flavour := sg.PickImportSpecs(r, all0, nil, imp0)
+	res.Count("imports:flavour:" + flavour)
+	res.Count("imports:mode:" + sg.TargetModeNames[curSpec.Mode])
+	tagNote := fmt.Sprintf("imports %s/%s ", flavour, sg.TargetModeNames[curSpec.Mode])
+	// self pair (the two sides may differ in their import flags)
+	j := r.Intn(len(chain))
+	if a, b := compile(chain[j], curSpec), compile(chain[j], prevSpec); a != nil && b != nil {
+		evalImports(run, i, res, rn, a, b, "C04-self-not-clean", tagNote+"self", true, r)
+	}
+	// additive pairs
+	for hi := 1; hi < len(chain); hi++ {
+		lo := r.Intn(hi)
+		if a, b := compile(chain[hi], curSpec), compile(chain[lo], prevSpec); a != nil && b != nil {
+			evalImports(run, i, res, rn, a, b, "C04-additive-not-clean", tagNote+"additive "+fmt.Sprint(ops[lo+1:hi+1]), true, r)
+		}
+	}
+	// breaking edits; the edited file is kept out of the targets so that it is an import
+	base := chain[len(chain)-1]
+	for b := 0; b < 2; b++ {
+		s, op, site, _, ok := sg.ApplyRandom(base, sg.BreakingOps, r)
+		if !ok {
+			continue
+		}
+		res.Count("op:" + op.Name)
+		allB, impB := names(base)
+		var must []string
+		if site.File != "" {
+			must = []string{site.File}
+		}
+		cs, ps, fl := sg.PickImportSpecs(r, allB, must, impB)
+		res.Count("imports:flavour:" + fl)
+		res.Count("imports:mode:" + sg.TargetModeNames[cs.Mode])
+		a, bb := compile(s, cs), compile(base, ps)
+		if a == nil || bb == nil {
+			continue
+		}
+		if site.File != "" && a.ImportFiles()[site.File] {
+			res.Count("imports:edited-file-is-import:cur")
+		}
+		if site.File != "" && bb.ImportFiles()[site.File] {
+			res.Count("imports:edited-file-is-import:prev")
+		}
+		evalImports(run, i, res, rn, a, bb, "imports-breaking", fmt.Sprintf("imports %s/%s breaking %s at %s", fl, sg.TargetModeNames[cs.Mode], op.Name, site.File), false, r)
+	}
+	return res
+}
+
+// spellingJob (section F): the "same value, other spelling" half of the defaults matrix
+// (sg.DefaultCases with Same): hex / octal / signed-zero integers, float notations, literals that
+// are equal after rounding to the field's float width, an explicit zero value against no option,
+// other quoting / escapes / concatenation of strings and bytes, another NAME (alias) of the same
+// enum number.  Nothing but the spelling differs, so the pair must be clean in every category.
+func spellingJob(run *hx.Run, root *hx.Rand, i int, layout int, rn *sg.Runner) *sg.Result {
+	res := sg.NewResult()
+	r := root.Fork(uint64(i))
+	var cases []sg.DefaultCase
+	for _, c := range sg.DefaultCases() {
+		if c.Same && !c.Observe {
+			cases = append(cases, c)
+		}
+	}
+	prevSrc, fields := sg.RenderDefaultMatrix(cases, layout, true)
+	curSrc, _ := sg.RenderDefaultMatrix(cases, layout, false)
+	note := "default spellings, layout " + sg.MatrixLayoutNames[layout]
+	prev, err1 := sg.Compile(prevSrc)
+	cur, err2 := sg.Compile(curSrc)
+	if err1 != nil || err2 != nil {
+		res.Fail(hx.OracleFailure{Class: "harness-default-matrix-compile", What: fmt.Sprint(err1, err2), Input: map[string]any{"current": curSrc, "previous": prevSrc}, Replay: replay(run, i)})
+		return res
+	}
+	// the table must be right: the descriptors carry the same default value on both sides
+	for _, mf := range fields {
+		o, err := sg.DefaultOutcomeOf(cur, prev, mf.FullName)
+		if err != nil || o.Changed {
+			res.Fail(hx.OracleFailure{Class: "harness-default-matrix-table", What: fmt.Sprintf("%s: %v %+v", cases[mf.Case], err, o), Replay: replay(run, i)})
+			return res
+		}
+	}
+	res.CountN("spelling:fields:"+sg.MatrixLayoutNames[layout], len(fields))
+	evalClean(run, i, res, rn, cur, prev, "C04-cosmetic-not-clean", note, true, r)
+	evalClean(run, i, res, rn, prev, cur, "C04-cosmetic-not-clean", note+" (reversed)", true, r)
+	return res
+}
+
 func probeJob(run *hx.Run, root *hx.Rand, i int, rn *sg.Runner) *sg.Result {
 	res := sg.NewResult()
 	r := root.Fork(uint64(i))
@@ -487,11 +721,13 @@ func main() {
 	// probe once, before the parallel jobs: which model dispatch matches this tree
 	run.Set("tree_has_package_last_element_fix", sg.TreeHasPackageFix())
 	root := hx.NewRand(run.Seed)
-	nChains := run.N(130, 1000)
-	nHier := run.N(230, 1700)
+	nChains := run.N(130, 880)
+	nHier := run.N(230, 1500)
 	nProbe := run.N(40, 300)
 	nBig := run.N(5, 30) // per parallelism value; thorough in.txt stays < 200 MB
-	nSmall := nChains + nHier + nProbe
+	nImp := run.N(50, 120)
+	nSpell := sg.NumMatrixLayouts
+	nSmall := nChains + nHier + nProbe + nImp + nSpell
 	saved := thread.Parallelism()
 	phases := []sg.Phase{
 		{N: nSmall},
@@ -504,8 +740,12 @@ func main() {
 			return chainJob(run, root.Fork(1), i, rn)
 		case i < nChains+nHier:
 			return hierarchyJob(run, root.Fork(2), i, rn)
-		case i < nSmall:
+		case i < nChains+nHier+nProbe:
 			return probeJob(run, root.Fork(3), i, rn)
+		case i < nChains+nHier+nProbe+nImp:
+			return importJob(run, root.Fork(5), i, rn)
+		case i < nSmall:
+			return spellingJob(run, root.Fork(6), i, i-(nChains+nHier+nProbe+nImp), rn)
 		case i < nSmall+nBig:
 			return bigJob(run, root.Fork(4), i, 2, rn)
 		}
